@@ -10,7 +10,7 @@ def seqs : Nat → List (List Call)
 def callStr (cs : List Call) : String := String.ofList (cs.map fun c => match c with | .start => 'S' | .stop => 'T')
 
 def specLine (cs : List Call) : String :=
-  "res ok results=" ++ ",".intercalate ((specResults false cs).map fun e => if e then "1" else "0") ++ " corrupt=0 leak=0 rebind=1"
+  "res ok results=" ++ ",".intercalate ((specResults false cs).map fun e => if e then "1" else "0") ++ " corrupt=0 leak=0 rebind=1 dead=0"
 
 /-- every Start/Stop sequence of length 1..maxLen, on rotating receiver configurations; plus drain runs -/
 def gen (maxLen : Nat) : G (List String) := do
